@@ -207,9 +207,22 @@ func Run(w *core.WorkerCtx, k int, prop string) *core.CaseResult {
 		}
 		spec = Spec{MaxHead: 1000000, MaxProc: 8000, NShards: 3, Interval: 150 * time.Millisecond, Sizes: map[int][2]int{}}
 		nT = 4 + r.Intn(2)
+		if k%2 == 1 {
+			nT = 6              // two per shard by their true sizes, three per shard by an estimate that misses a collector
+			workload = "steady" // the three shards are full
+		}
+		if k%2 == 1 {
+			// the job's collect[] param has two values and each adds 700 samples to every answer: a probe that does
+			// not carry both measures something smaller than what is scraped
+			spec.Collect = 700
+		}
 		for i := 0; i < nT; i++ {
-			kept := 300 + r.Intn(1500)
-			spec.Sizes[i] = [2]int{kept, 2500 + r.Intn(1000) - kept}
+			kept := 300 + r.Intn(1100)
+			total := 2500 + r.Intn(1000)
+			if spec.Collect > 0 {
+				total = 1500 + r.Intn(400) // + 2 x 700
+			}
+			spec.Sizes[i] = [2]int{kept, total - kept}
 		}
 		spec.Sizes[nT] = [2]int{100, 8000 + r.Intn(2000)}
 		nT++
